@@ -109,6 +109,10 @@ pub struct SourceChars {
     pub map: BTreeMap<Ch, u16>,
     /// characters about which nothing is asserted
     pub disputed: BTreeSet<Ch>,
+    /// Big5: characters with two codes, both mapped; `map` holds the glyph of the canonical code.
+    /// Asserted only when that glyph is retained (if only the other code's glyph is retained the
+    /// subsetter keeps the character for it: the same open question as a lone non-canonical code)
+    pub twins: BTreeSet<Ch>,
     pub notes: BTreeSet<&'static str>,
 }
 
@@ -158,6 +162,12 @@ pub fn source_chars(src: &Source) -> Result<SourceChars, &'static str> {
                         let c = v[0];
                         if rm::big5_encode(c).map(u32::from) == Some(*code) {
                             out.map.insert(Ch::Uni(c as u32), *g);
+                        } else if big5_twins().iter().any(|(o, k)| *o == *code && src.table.iter().any(|(c2, _)| c2 == k)) {
+                            // the smaller of the two codes of a twice-encoded character whose
+                            // canonical (larger) code is mapped too: lookups of the character use
+                            // the canonical code, whose entry decides (asserted above)
+                            out.notes.insert("source:big5-twin-codes-both-mapped");
+                            out.twins.insert(Ch::Uni(c as u32));
                         } else {
                             // a second code of a character the encoder writes differently:
                             // the character itself is looked up under its canonical code
@@ -179,6 +189,33 @@ pub fn source_chars(src: &Source) -> Result<SourceChars, &'static str> {
         }
     }
     Ok(out)
+}
+
+/// (other code, canonical code) of every character that has two Big5 codes and whose canonical
+/// code (the one the encoder writes, hence the one a lookup of the character uses) is the larger
+fn big5_twins() -> &'static Vec<(u32, u32)> {
+    static T: std::sync::OnceLock<Vec<(u32, u32)>> = std::sync::OnceLock::new();
+    T.get_or_init(|| {
+        let mut by_char: BTreeMap<char, Vec<u32>> = BTreeMap::new();
+        for code in 0x8140u32..=0xFEFE {
+            if let Some(v) = rm::big5_decode(code as u16) {
+                if v.len() == 1 {
+                    by_char.entry(v[0]).or_default().push(code);
+                }
+            }
+        }
+        let mut out = Vec::new();
+        for (c, codes) in by_char {
+            if codes.len() == 2 {
+                if let Some(canon) = rm::big5_encode(c).map(u32::from) {
+                    if canon == codes[1] {
+                        out.push((codes[0], canon));
+                    }
+                }
+            }
+        }
+        out
+    })
 }
 
 // ---------------------------------------------------------------------------------------------
@@ -362,7 +399,20 @@ fn gen_map(c: &GenCase) -> BTreeMap<u32, u16> {
         SrcKind::MacF0 | SrcKind::MacF6 => (0xFF, &[8, 8, 8, 8, 8, 8, 8, 8]),
         SrcKind::Big5F4 | SrcKind::Big5F2 => {
             // glyph ids folded into the font
-            return c06::big5_map(&c.big5).into_iter().map(|(k, g)| (k, 1 + g % (n - 1))).collect();
+            let mut m: BTreeMap<u32, u16> = c06::big5_map(&c.big5).into_iter().map(|(k, g)| (k, 1 + g % (n - 1))).collect();
+            // characters that Big5 encodes twice: both codes mapped, to different glyphs (the
+            // character itself is looked up under the code the encoder gives it)
+            let tw = big5_twins();
+            for (sel, rnd, gid) in &c.big5 {
+                if sel % 8 == 5 && (rnd >> 16) & 1 == 1 && !tw.is_empty() && n > 3 {
+                    let (other, canon) = tw[pick(tw.len(), rnd.wrapping_mul(2654435761))];
+                    let g1 = 1 + *gid % (n - 1);
+                    let g2 = 1 + (g1 % (n - 1));
+                    m.insert(other, g1);
+                    m.insert(canon, g2);
+                }
+            }
+            return m;
         }
     };
     let dense = matches!(c.kind, SrcKind::UniDense6 | SrcKind::UniDense10);
@@ -612,6 +662,14 @@ pub fn check(src: &Source, list: &[u16], target: &Target, generated: bool, rec: 
     // S restricted to the target's repertoire
     let mac_target = matches!(target, Target::PrinceMacRoman);
     let mut disputed = sc.disputed.clone();
+    for c in &sc.twins {
+        match sc.map.get(c) {
+            Some(g) if new_id.contains_key(g) => rec.class("source:big5-twin:canonical-glyph-retained"),
+            _ => {
+                disputed.insert(*c);
+            }
+        }
+    }
     let mut s_map: BTreeMap<Ch, u16> = BTreeMap::new();
     if mac_target && src.enc == Enc::Symbol {
         // a symbol font maps a character through the documented legacy rule
